@@ -204,3 +204,9 @@ M("ctx-hash-skips-tc", ["C18"], CTXS, "    if (hash_item(tc, ctx, log_ref) < 0)\
 M("ctx-store-never-frees", ["C18"], CTXS, "\tSSL_CTX_free(entry->ssl_ctx);", "\t;")
 M("tls-cert-dir-env-cached", ["C18"], BTLS, "    const char *cert_dir = getenv(TLS_CERT_ENV);\n    return cert_dir != NULL ? cert_dir : DEFAULT_CERT_DIR;", "    static const char *cert_dir;\n    if (cert_dir == NULL)\n\tcert_dir = getenv(TLS_CERT_ENV);\n    return cert_dir != NULL ? cert_dir : DEFAULT_CERT_DIR;")
 M("ctx-unreadable-errno-leaks", ["C18"], CTXS, "\tif (item_load(cert, &cert_data) < 0) {\n\t    errno = EPROTO;\n\t    goto out;\n\t}", "\tif (item_load(cert, &cert_data) < 0) {\n\t    goto out;\n\t}")
+
+# ---- C15
+AFD = "libxcm/tp/common/active_fd.c"
+M("active-fd-get-unlocked", ["C15"], AFD, "int active_fd_get(void)\n{\n    ut_mutex_lock(&active_fd_lock);\n\n    struct active_fd *active_fd = fd_retrieve();\n\n    if (active_fd != NULL)\n\tgoto out;\n\n    active_fd = fd_create();\n\nout:\n    ut_mutex_unlock(&active_fd_lock);",
+  "int active_fd_get(void)\n{\n    struct active_fd *active_fd = fd_retrieve();\n\n    if (active_fd != NULL)\n\tgoto out;\n\n    active_fd = fd_create();\n\nout:\n    ;")
+M("sock-id-unlocked", ["C15"], XTPC, "    ut_mutex_lock(&next_id_lock);\n    nid = next_id++;\n    ut_mutex_unlock(&next_id_lock);", "    nid = next_id++;")
